@@ -162,6 +162,29 @@ Section Energy.
     apply bil_ext_M. intros a b _ _. unfold heff. rewrite bil_unfold. reflexivity.
   Qed.
 
+  (* the same restriction as a LINEAR OPERATOR (the lazy path of form_local_ops): applying Heff to a
+     local vector = embed, apply H, project back with P^dagger:  (Heff x)_a = sum_u conj(P[u,a]) (H (P x))_u *)
+  Theorem heff_matvec n m P H x a :
+    mat_vec m (heff n P H) x a = sum n (fun u => conj (P u a) * mat_vec n H (embed m P x) u).
+  Proof.
+    unfold mat_vec, heff, embed.
+    rewrite (sum_ext m _ (fun b => sum n (fun u => sum n (fun l => conj (P u a) * H u l * P l b * x b)))).
+    2:{ intros b _. rewrite <- sum_mul_r. apply sum_ext. intros u _. rewrite <- sum_mul_r. reflexivity. }
+    rewrite (sum_swap m n). apply sum_ext. intros u _.
+    rewrite (sum_swap m n). rewrite <- sum_mul_l. apply sum_ext. intros l _.
+    rewrite <- sum_mul_l. rewrite <- sum_mul_l. apply sum_ext. intros b _. ring.
+  Qed.
+
+  (* swapping the row / column labels of the operator applies the transpose; for a Hermitian operator that is
+     the complex conjugate: it returns conj(Heff conj(x)) - the seeded defect class "left_inds <-> right_inds" *)
+  Theorem transpose_matvec_hermitian n M x a :
+    (forall u l, (u < n)%nat -> (l < n)%nat -> conj (M l u) = M u l) -> (a < n)%nat ->
+    mat_vec n (transpose M) x a = conj (mat_vec n M (cj x) a).
+  Proof.
+    intros Hh Ha. unfold mat_vec, transpose, cj. rewrite conj_sum. apply sum_ext. intros l Hl.
+    rewrite conj_mul, conj_invol. rewrite (Hh l a Hl Ha). reflexivity.
+  Qed.
+
   (* isometric embedding (P^dagger P = 1 on the local space) preserves the norm *)
   Definition isometry (n m : nat) (P : mat) : Prop :=
     forall a b, (a < m)%nat -> (b < m)%nat ->
